@@ -117,7 +117,8 @@ static J gen_c15 (uint64_t seed, uint64_t idx)
 		for (int k = 0 ; k < nrw ; k++)
 		{	uint64_t q = g.rng.below (100) ;
 			if (q < 35) { J w = mkop ("write") ; w ["T"] = stype_name (T) ; if (g.rng.chance (0.5)) w ["fr"] = 1 ; w ["n"] = (long long) g.rng.range (1, 80) ; ops.push (w) ; }
-			else if (q < 65) { J r1 = mkop ("read") ; r1 ["T"] = stype_name (T) ; r1 ["fr"] = 1 ; r1 ["n"] = (long long) g.rng.range (1, 120) ; ops.push (r1) ; }
+			else if (q < 62) { J r1 = mkop ("read") ; r1 ["T"] = stype_name (T) ; r1 ["fr"] = 1 ; r1 ["n"] = (long long) g.rng.range (1, 120) ; ops.push (r1) ; }
+			else if (q < 70 && route != "vio") { J c = mkop ("cmd") ; c ["id"] = "truncate" ; c ["arg"] = (long long) g.rng.below (200) ; ops.push (c) ; }
 			else
 			{	J s = mkop ("seek") ; int wh = (int) g.rng.below (3) ; s ["whence"] = wh ; s ["flag"] = (int) g.rng.pick<int> ({ 0, SFM_READ, SFM_WRITE, SFM_WRITE }) ;
 				s ["off"] = (long long) (wh == 2 ? -(int64_t) g.rng.below (40) : wh == 1 ? g.rng.range (-20, 20) : (int64_t) g.rng.below (300)) ; ops.push (s) ;
@@ -142,6 +143,9 @@ static J gen_c15 (uint64_t seed, uint64_t idx)
 		plan ["sched"] = sched ;
 	}
 	cfg ["enumerate"] = 1 ;
+	// quick: 6 sampled fault points per plan. thorough: 24, and every 8th plan enumerates all of its fault points (capped at 3000)
+	cfg ["sample"] = g_thorough ? (idx % 8 == 3 ? 0 : 24) : 6 ;
+	if (g_thorough) cfg ["sample_cap"] = 3000 ;
 	return plan ;
 }
 
@@ -189,7 +193,7 @@ static void check_store_prefix (Verdict &v, const J &plan, const Result &r, cons
 {	std::string cls = plan.at ("cfg").gets ("class") ;
 	// read/write handles are left out on purpose: on the pinned tree failed seeks and short header reads are ignored so widely in
 	// RDWR mode (header rewrite over the audio, writes at a stale position) that the clause would consist of known findings only
-	if (!r.have_fault_snapshot || cls != "W" || plan.at ("faults").size () == 0) return ;
+	if (!r.have_fault_snapshot || (cls != "W" && cls != "RW") || plan.at ("faults").size () == 0) return ;
 	if (f.sub >= SF_FORMAT_ALAC_16 && f.sub <= SF_FORMAT_ALAC_32) return ;		// assembled at close
 	if (f.sub == SF_FORMAT_DWVW_12 || f.sub == SF_FORMAT_DWVW_16 || f.sub == SF_FORMAT_DWVW_24) return ;		// bit packer holds a partial word
 	const J &fj = plan.at ("faults") [0] ;
@@ -204,6 +208,13 @@ static void check_store_prefix (Verdict &v, const J &plan, const Result &r, cons
 	int B = block_frames (f, ch, (int) plan.at ("cfg").geti ("sr", 8000)) ;
 	frames = (frames / B) * B ;
 	std::string fopk = fop >= 0 && fop < (int) ops.size () ? ops [fop].gets ("op") : "" ;
+	// the one read/write case that is decidable on the pinned tree: a single failed seek inside sf_seek which sf_seek reported (-1).
+	// The call failed, so the run must from there on treat stored frames like the same history without that call: a third
+	// acceptable value per frame is the one decoded after the plan with the seek taken out.
+	bool rw_seek = cls == "RW" && (kind == F_VIO_SEEK_FAIL || kind == F_FD_LSEEK_FAIL) && !fj.geti ("persistent") && fopk == "seek" &&
+			fop < (int) r.transcript [0].size () && !r.transcript [0][fop].skipped && r.transcript [0][fop].ret == -1 ;
+	if (cls == "RW" && !rw_seek) return ;
+	if (cls == "RW" && !(f.sample_granular () && !f.lossy)) return ;
 	std::string where = fopk == "write" ? "@audio_write" : fopk == "cmd" ? "@header_update" : fopk == "close" ? "@close" : "@" + fopk ;
 	auto kb = base.kept.find (1), kr = r.kept.find (1) ;
 	if (kb == base.kept.end () || kr == r.kept.end () || frames == 0) { v.probes ["store_prefix_not_recoverable"] ++ ; return ; }
@@ -218,12 +229,23 @@ static void check_store_prefix (Verdict &v, const J &plan, const Result &r, cons
 	static const std::vector<uint64_t> none ;
 	auto ks = rs.kept.find (1) ;
 	const std::vector<uint64_t> &snap = ks == rs.kept.end () ? none : ks->second ;
+	std::vector<uint64_t> alt ;
+	if (rw_seek)
+	{	J np = plan ; np.erase ("faults") ;
+		J nop = J::obj () ; nop ["op"] = "nop" ;
+		np ["tasks"][0]["ops"][(size_t) fop] = nop ;
+		Result rn = execute (np) ;
+		v.absorb (rn) ;
+		auto ka = rn.kept.find (1) ;
+		if (ka != rn.kept.end ()) alt = ka->second ;
+		v.probes ["store_prefix_rdwr_failed_seek"] ++ ;
+	}
 	int64_t items = std::min<int64_t> ({ frames * ch, (int64_t) kr->second.size (), (int64_t) kb->second.size () }) ;
 	int64_t compared = 0 ;
 	for (int64_t k = 0 ; k < items ; k++)
 	{	if (k >= (int64_t) snap.size ()) break ;		// the snapshot's own header did not cover this frame yet: nothing to compare with
 		compared ++ ;
-		if (kr->second [k] != kb->second [k] && kr->second [k] != snap [k])
+		if (kr->second [k] != kb->second [k] && kr->second [k] != snap [k] && !(k < (int64_t) alt.size () && kr->second [k] == alt [k]))
 		{	Finding fd ; char b [260] ;
 			snprintf (b, sizeof (b), "item %lld (of %lld frames that existed before the fault) decodes to 0x%llx after the faulted run; fault-free run ends with 0x%llx there, the store at the instant of the fault held 0x%llx",
 				(long long) k, (long long) frames, (unsigned long long) kr->second [k], (unsigned long long) kb->second [k], (unsigned long long) snap [k]) ;
@@ -269,11 +291,24 @@ static Verdict check_c15 (const J &plan)
 	int64_t total = (int64_t) pts.size () ;
 	int64_t want = cfg.geti ("sample", 6) ;
 	if (want <= 0 || want > total) want = total ;
+	int64_t cap = cfg.geti ("sample_cap", 0) ;
+	if (cap > 0 && want > cap) want = cap ;
+	bool all_points = want == total ;
 	uint64_t s = (uint64_t) plan.geti ("seed") ;
 	int64_t covered = 0, fired = 0 ;
 	std::set<int64_t> chosen ;
-	for (int64_t j = 0 ; j < want ; j++)
-	{	int64_t k = want == total ? j : (int64_t) (mix3 (s, 0xfa17, (uint64_t) j) % (uint64_t) total) ;
+	// read/write histories: two of the samples are spent on single failed seeks inside sf_seek calls (the store.prefix case decidable there)
+	std::vector<int64_t> seekpts ;
+	if (cfg.gets ("class") == "RW" && want < total)
+	{	const J &ops0 = plan.at ("tasks") [0].at ("ops") ;
+		for (int64_t k = 0 ; k < total ; k++)
+		{	const FaultPoint &fp = pts [(size_t) k] ;
+			if (!fp.persistent && (fp.kind == F_VIO_SEEK_FAIL || fp.kind == F_FD_LSEEK_FAIL) && fp.op < (int) ops0.size () && ops0 [(size_t) fp.op].gets ("op") == "seek") seekpts.push_back (k) ;
+		}
+	}
+	int64_t extra = seekpts.empty () ? 0 : 2 ;
+	for (int64_t j = 0 ; j < want + extra ; j++)
+	{	int64_t k = want == total ? j : j >= want ? seekpts [(size_t) (mix3 (s, 0x5eec, (uint64_t) j) % seekpts.size ())] : (int64_t) (mix3 (s, 0xfa17, (uint64_t) j) % (uint64_t) total) ;
 		if (!chosen.insert (k).second) continue ;
 		const FaultPoint &fp = pts [(size_t) k] ;
 		J p2 = plan ; p2 ["cfg"].erase ("enumerate") ;
@@ -293,6 +328,7 @@ static Verdict check_c15 (const J &plan)
 	note_current_plan (J ()) ;
 	v.extra = J::obj () ;
 	v.extra ["fault_points_total"] = (long long) total ; v.extra ["fault_points_covered"] = (long long) covered ; v.extra ["fault_points_fired"] = (long long) fired ;
+	if (all_points) v.probes ["plans_with_every_fault_point_enumerated"] ++ ;
 	v.probes ["fault_points_total"] += (uint64_t) total ; v.probes ["fault_points_covered"] += (uint64_t) covered ; v.probes ["fault_points_fired"] += (uint64_t) fired ;
 	v.nontrivial = fired > 0 ;
 	return v ;
